@@ -3,6 +3,8 @@
 package mux
 
 import (
+	"net/http"
+
 	zzv "github.com/issue9/mux/v9/internal/zzverif"
 	"github.com/issue9/mux/v9/types"
 )
@@ -36,13 +38,34 @@ func zzFreshObs(trace bool) string {
 	u, err := r.URL(true, "/a/{x:\\d+}y", map[string]string{"x": "7"})
 	s += "|url=" + u + string(rune('0'+map[bool]int{true: 1, false: 0}[err == nil]))
 	_, w4 := zzServe(r, zzReq("OPTIONS", "*"))
-	return s + "|star2=" + w4.h.Get("Allow")
+	star2 := ""
+	for _, x := range zzSplitAllow(w4.h.Get("Allow")) {
+		if x != "HEAD" { // OPTIONS * may or may not list HEAD
+			star2 += x + ","
+		}
+	}
+	return s + "|star2=" + star2
+}
+
+// zzFreshWant: what the documentation prescribes for zzFreshObs, independent of any earlier observation.
+func zzFreshWant(trace bool) string {
+	t, t2 := "", ""
+	if trace {
+		t, t2 = ", TRACE", "TRACE,"
+	}
+	return "star=OPTIONS" + t + "|404=4|n=0|routes=1:OPTIONS" + t + "|route=GET, HEAD, OPTIONS, PUT" + t + "|re=250|url=/a/7y1|star2=GET,OPTIONS,PUT," + t2
 }
 
 // ZZC07Seq(n): a fresh router answers identically whatever other instances did before. n = number of foreign operations.
 func ZZC07Seq(n int) {
 	trace := zzv.Choice("trace", 2) == 1
-	before := zzFreshObs(trace)
+	// either observe a fresh router first and compare afterwards, or let the other instances
+	// act first and compare with what the documentation prescribes
+	before := zzFreshWant(trace)
+	if zzv.Choice("observe-first", 2) == 1 {
+		before = zzFreshObs(trace)
+		zzv.Assert(before == zzFreshWant(trace), "fresh-router-answers-differ-from-the-documented-ones")
+	}
 	other := zzNewRouter("other")
 	otherT := zzNewRouter("otherT", WithTrace[*hnd](&hnd{id: idTrc}))
 	hs := NewHosts(false)
@@ -182,4 +205,44 @@ func zzServeQuiet(r *Router[*hnd], method, path string) *zzObs {
 	_ = w
 	_ = req
 	return o
+}
+
+var (
+	zzNestR     *Router[*hnd]
+	zzNestDepth int
+	zzNestBad   bool
+)
+
+// zzCallNest: the handler of route 1 serves a sub-request on the same router while
+// its own request is in flight (an internal redirect, a batch endpoint, ...).
+func zzCallNest(w http.ResponseWriter, r *http.Request, rt types.Route, h *hnd) {
+	if h.id == 1 && zzNestDepth == 0 {
+		zzNestDepth++
+		before := zzSnapshot(rt.Params())
+		zzNestR.ServeHTTP(newW(), zzReq("GET", "/k/inner"))
+		zzNestDepth--
+		if !before.equal(zzSnapshot(rt.Params())) {
+			zzNestBad = true
+		}
+	}
+	zzCall(w, r, rt, h)
+}
+
+// ZZC07Nested(n): two requests in flight at once (nested) each keep their own pooled context. n = max value length.
+func ZZC07Nested(n int) {
+	r := NewRouter[*hnd]("n", zzCallNest, &hnd{id: id404}, zzB405, zzBOpt)
+	r.Handle("/u/{id}", &hnd{id: 1}, nil, "GET")
+	r.Handle("/k/{pid}", &hnd{id: 2}, nil, "GET")
+	zzNestR, zzNestDepth, zzNestBad = r, 0, false
+	if zzv.Choice("group-first", 2) == 1 {
+		g := NewGroup[*hnd](zzCall, &hnd{id: id404}, zzB405, zzBOpt)
+		g.New("g", NewPathVersion("v", "v1")).Handle("/q/{k}", &hnd{id: 7}, nil, "GET")
+		zzServe(g, zzReq("GET", "/v1/q/1"))
+	}
+	v := zzv.Bytes("v", n)
+	o, _ := zzServe(r, zzReq("GET", "/u/"+v))
+	zzv.Cover("nested-request")
+	zzv.Assert(!zzNestBad, "nested:a-request-in-flight-lost-or-gained-parameters-while-another-was-served")
+	got, ok := o.params.Get("id")
+	zzv.Assert(o.id == 1 && ok && got == v && o.params.Count() == 1, "nested:outer-request-does-not-see-exactly-its-own-parameters")
 }
